@@ -106,6 +106,18 @@ Theorem C09_roles :
 Proof. exact roles. Qed.
 Print Assumptions C09_roles.
 
+(* Persistence: any amount of time passing - in any number of steps of any length - leaves admin,
+   role membership and enumeration, role admins, the stored pending-admin entry, every stored ready
+   ledger, the minimum delay and the target's counters exactly as they are. *)
+Theorem C09_time_changes_nothing_stored :
+  forall (hash : op -> id) (aid : argv -> N) (cf : cfg) cs s,
+    forallb C09Final.is_advance cs = true ->
+    let s' := run hash aid cf s cs in
+    acs s' = acs s /\ marks (ctl s') = marks (ctl s) /\ min_delay (ctl s') = min_delay (ctl s) /\
+    cruns s' = cruns s /\ now (ctl s) <= now (ctl s').
+Proof. exact C09Final.time_changes_nothing_stored. Qed.
+Print Assumptions C09_time_changes_nothing_stored.
+
 (* Over every call sequence from the constructor (ledger >= 2): an operation that is pending in the
    reached state was scheduled by a successful schedule_op of an account that held the proposer
    role then and signed, with a delay >= the minimum delay then in force; nothing succeeded on its
